@@ -19,7 +19,9 @@ KINDS = (
     "(h) a Python-level subtlety (int/bool/enum confusion, `is` vs `==`, mutable default, masking or overflow at an 8/16/32-bit boundary, signedness, text encoding, dict/set ordering, generator vs list, shallow vs deep copy); "
     "(i) dependence on the ORDER in which independent things happen (which module is constructed or attached first, which file is loaded first, which option / controller / field is assigned last, whether an object was saved or looked at before it is changed); "
     "(j) numeric detail (rounding, integer vs true division, float precision, sign, wrap-around at 2^15 / 2^16 / 2^31, a single special value deep inside a large range); "
-    "(k) text and bytes (non-ASCII, combining characters, strings exactly at or one past a length limit, bytes vs str, trailing NULs)"
+    "(k) text and bytes (non-ASCII, combining characters, strings exactly at or one past a length limit, bytes vs str, trailing NULs); "
+    "(l) size (something that only differs beyond a size nobody tries by hand: more than 255 / 256 / 65535 modules, patterns, lines, tracks, points, samples, links per module, nesting levels, characters; values that need more than 8 / 15 / 16 bits); "
+    "(m) the environment the library runs in (logging configuration, warnings filters, the kind of file object or path it is handed, the current directory, recursion depth, garbage collection timing, what else was imported or subclassed)"
 )
 for p in props:
     pid = p['id']
